@@ -553,6 +553,67 @@ def link_operator_unit(side):
 UNITS += [link_operator_unit('pre'), link_operator_unit('suc')]
 
 
+def bulk_link_operator_unit(side):
+    """_ImmutableTaskList.__lshift__ / __rshift__:  for t in self: t.predecessors += other  - every member of the task list gets the named tasks as predecessors (successors).
+    Domain: the list is a query result, i.e. a list of its own that no task uses as a dependency list (`self` is a list value here).  Nothing is claimed for a refused call:
+    the loop stops half-way (known finding A-38, C15)."""
+    fname = '__lshift__' if side == 'pre' else '__rshift__'; pname = 'predecessors' if side == 'pre' else 'successors'
+    M = (lambda h, t: h.P(t)) if side == 'pre' else (lambda h, t: h.S(t)); O = (lambda h, t: h.S(t)) if side == 'pre' else (lambda h, t: h.P(t))
+    mref = (lambda h, t: h.pre[t]) if side == 'pre' else (lambda h, t: h.suc[t])
+
+    def build():
+        hc = lambda c: H(c.eng, c.st); h0 = lambda c: H(c.eng, c.pre)
+
+        class OpPlugin(ChildrenPlugin):
+            def ev_Attribute(self_, eng, e, st):
+                if e.attr == pname and isinstance(e.ctx, ast.Load):
+                    s, o = eng.ev1(e.value, st)
+                    if o.s == T:
+                        s.oblige('safe/AttributeError-None', o.e != null, f'@{e.lineno}')
+                        return [(s, V(mref(H(eng, s), o.e), LR))]          # the facade stands for the list object it wraps
+                return NotImplemented
+
+            def binop(self_, eng, st, k, l_, r, line):
+                if k == 'Add' and l_.s in (LR, LT) and r.s == LT: return V(cat(self_.listval(eng, st, l_, line), r.e), LT)
+                return NotImplemented
+
+            def assign(self_, eng, s, target, v):
+                if isinstance(target, ast.Attribute) and target.attr == pname and v.s == LT:
+                    s2, o = eng.ev1(target.value, s)
+                    res, rc = link_setter_call(eng, s2, side, o.e, v.e, target.lineno)
+                    return [(s3, r if isinstance(r, Raise) else FALL) for s3, r in res]
+                return NotImplemented
+
+        I = lambda c: Inv(hc(c))
+        STRUCT = ['C01/F1-listed-child-reports-that-parent', 'C01/F2-parent-lists-its-child', 'C01/F3-no-child-listed-twice', 'C01/F4-no-task-is-its-own-ancestor', 'N-null-has-no-parent', 'O1-list-objects-distinct',
+                  'C11/WR-hidden-roots', 'DR-reserved-id-marks-hidden-roots-only']
+        done = lambda c, t, i: And(mem(c['self'], t), idx(c['self'], t) < i)          # the member has been passed (its first occurrence lies before position i)
+
+        def effect(c, i):
+            return ForAll([t_, x], Implies(t_ != null, mem(M(hc(c), t_), x) == Or(mem(M(h0(c), t_), x), And(done(c, t_, i), mem(c['other'], x)))), patterns=[mem(M(hc(c), t_), x)])
+        hier_same = lambda c: And(hc(c).par == h0(c).par, hc(c).chl == h0(c).chl, hc(c).tid == h0(c).tid, hc(c).root == h0(c).root, hc(c).own == h0(c).own,
+                                  ForAll([t_], Implies(t_ != null, hc(c).ch(t_) == h0(c).ch(t_)), patterns=[hc(c).chl[t_]]))
+        public_links = lambda c: ForAll([t_, x], Implies(And(t_ != null, mem(M(hc(c), t_), x)), hc(c).tid[x] != EMPTY), patterns=[mem(M(hc(c), t_), x)])
+        reqs = [(l_, (lambda l_: lambda c: LInv_side(side, hc(c), c.st.ghost['E'])[l_])(l_)) for l_ in LINK_LABS] + [(l_, (lambda l_: lambda c: I(c)[l_])(l_)) for l_ in STRUCT] + \
+               [('members-and-named-tasks-are-public-tasks', lambda c: And(ForAll([x], Implies(mem(c['self'], x), And(x != null, hc(c).tid[x] != EMPTY)), patterns=[mem(c['self'], x)]),
+                                                                        ForAll([x], Implies(mem(c['other'], x), And(x != null, hc(c).tid[x] != EMPTY)), patterns=[mem(c['other'], x)]))),
+                ('linked-tasks-are-public', public_links)]
+        inv = [('links/' + l_, (lambda l_: lambda c: LInv_side(side, hc(c), c.st.ghost['E'])[l_])(l_)) for l_ in LINK_LABS] + \
+              [('hierarchy-ids-owners-unchanged', hier_same), ('linked-tasks-are-public', public_links), ('index', lambda c: And(c['_i0'] >= 0, c['_i0'] <= ln(c['self']))),
+               ('members-passed-so-far-have-the-named-tasks', lambda c: effect(c, c['_i0']))]
+        fc = {'sig': {'self': LT, 'other': LT}, 'locals': {'t': T}, 'ghost': {'E': S('REL', REL)}, 'requires': reqs,
+              'loops': {0: {'fingerprint': 'for t in self', 'havoc_heap': ['PyList.elems', 'Task._Task__predecessors', 'Task._Task__successors'], 'havoc_ghost': ['E'], 'invariant': inv}},
+              'raises': {'RuntimeError': []},
+              'ensures': [(l_, (lambda l_: lambda c: LInv_side(side, hc(c), c.st.ghost['E'])[l_])(l_)) for l_ in LINK_LABS] +
+                         [('C16,C18/every-member-has-its-old-links-plus-the-named-tasks-and-no-other-task-changes', lambda c: ForAll([t_, x], Implies(t_ != null, mem(M(hc(c), t_), x) == Or(mem(M(h0(c), t_), x), And(mem(c['self'], t_), mem(c['other'], x)))))),
+                          ('C16/hierarchy-ids-owners-unchanged', hier_same), ('C16/returns-the-right-operand', lambda c: c.result.e == c['other'])]}
+        return Engine(F, f'_ImmutableTaskList.{fname}', {}, TASK_CLASSES, fc, plugins=[OpPlugin()]), LIST_AX + LIST_CAT_AX + GRAPH_AX + DEP_AX
+    return Unit(f'_ImmutableTaskList.{fname}', F, build, ['C01', 'C16', 'C18'], timeout_ms=15000)
+
+
+UNITS += [bulk_link_operator_unit('pre'), bulk_link_operator_unit('suc')]
+
+
 def floordiv_unit():
     """Task.__floordiv__:  self.children += other  ==  self.children = list(self.children) + _to_list(other), through the children setter.
     Domain of the proof: `other` names no current child and no task twice (then the assigned list has no repetition)"""
